@@ -328,6 +328,15 @@ def run(chk, facts):
     except AnchorError as e:
         chk.anchor_fail("R-C11-4", e)
     chk.assume("the typing imports registered by type rendering (`to_py(imp)`) are allowed to differ between the two settings (the property says so)")
+    # with annotations on, the names the annotations mention must be importable, or the annotated module does not even load while
+    # the plain one runs: the import-pairing rule of C16 is part of "annotate is inert" (only the R-C16-1 obligations are taken)
+    from . import c16
+    n0 = len(chk.obligations)
+    c16.run(chk, facts)
+    chk.obligations = chk.obligations[:n0] + [o for o in chk.obligations[n0:] if o["rule"] == "R-C16-1"]
+    for r in ("R-C16-2", "R-C16-4"):
+        chk.rules.pop(r, None)
+        chk.counts.pop(r, None)
     chk.notes.append("C11: taint of the annotate flag over all functions of generate::, who-may-read over the whole crate (MIR).")
 
 
